@@ -12,6 +12,9 @@
  *    disabled (no second 0-RTT flight under the same early traffic key).
  */
 #include "vf.h"
+#if defined(VF_FRAG) && VF_FRAG == 2
+# include "heap_model.h"
+#endif
 #include "matrixssl/matrixsslImpl.h"
 #include "matrixssl/tls13Decode.c"
 #include "ssl_state.h"
@@ -172,7 +175,51 @@ VF_MAIN
     ssl->tls13EarlyDataStatus = vf_u8() % 4;
     vf_bytes(M, NB);
     hl = ((uint32) M[1] << 16) | ((uint32) M[2] << 8) | M[3];
-#ifdef VF_FRAG
+#if defined(VF_FRAG) && VF_FRAG == 2
+    {
+        /* C18 / C08: a later piece of a handshake message that spans records.
+           RI: fragMessage holds fragTotal bytes (header included), fragIndex of
+           them (at least the header) are stored */
+        uint32 tot = 5 + vf_u8() % 20, idx = vf_u8(), take;
+        uint32 avail = vf_u8();
+        VF_ASSUME(idx >= 4 && idx < tot && avail >= 1 && avail <= NB);
+        ssl->fragTotal = tot;
+        ssl->fragIndex = idx;
+        ssl->fragMessage = (unsigned char *) malloc(tot);
+        VF_ASSUME(ssl->fragMessage != NULL);
+        vf_bytes(ssl->fragMessage, 4);
+        /* the stored header announces the stored total */
+        ssl->fragMessage[1] = 0;
+        ssl->fragMessage[2] = 0;
+        ssl->fragMessage[3] = (unsigned char) (tot - 4);
+        pre = S;
+        take = (avail < tot - idx) ? avail : tot - idx;
+        rc = tls13ParseHandshakeMessage(ssl, &p, M + avail);
+        VF_ASSERT(p == M + take, "c18.hs13.continuation_consumes_exactly_what_is_missing");
+        if (take < tot - idx)
+        {
+            VF_REACH("still_partial");
+            VF_ASSERT(rc == SSL_PARTIAL && ssl->fragIndex == idx + take && ssl->fragMessage != NULL, "c18.hs13.continuation_stored");
+            VF_ASSERT(ssl->hsState == pre.hsState, "c06.hs13.partial_message_leaves_state");
+        }
+        else
+        {
+            VF_REACH("completed");
+            /* the reassembly buffer is released once the message was handled */
+            /* (SSL_NO_TLS_1_3 hands the reassembled ClientHello over to the
+               TLS <= 1.2 dispatcher, which releases it; after an error the
+               session is dead and the buffer goes with it) */
+            if (rc >= 0 || rc == SSL_ENCODE_RESPONSE)
+            {
+                VF_ASSERT(ssl->fragMessage == NULL && ssl->fragTotal == 0 && ssl->fragIndex == 0, "c08.hs13.reassembly_buffer_released");
+            }
+        }
+#ifdef VF_CBMC
+        VF_ASSERT(VF_HEAP_OK(), "c08.hs13.block_operations_inside_live_allocations");
+#endif
+    }
+    VF_REACH("end");
+#elif defined(VF_FRAG)
     /* C08: a handshake message that continues in later records - the
        reassembly buffer a not yet authenticated peer can make us allocate is
        bounded like the TLS <= 1.2 one (64 KB + header) */
